@@ -8,6 +8,7 @@ import time
 import traceback
 
 VERIF = os.path.dirname(os.path.dirname(os.path.abspath(__file__)))
+OUT = os.environ.get('VERIF_OUT', VERIF)      # evidence/ and replays/ go here (the seed matrix redirects them)
 REPO = os.environ.get('VERIF_REPO', '/repo')
 SRC = os.path.join(REPO, 'src')
 GUARD = 'DOCUMENTTEMPLATE_VERIF'
@@ -85,8 +86,8 @@ class Verdicts:
     def finish(self, coverage, assumptions=(), level='model_checking'):
         rp = None
         if self.violations:
-            os.makedirs(os.path.join(VERIF, 'replays'), exist_ok=True)
-            rp = os.path.join(VERIF, 'replays', '%s-%s-%d.json' % (self.pid, self.tier, os.getpid()))
+            os.makedirs(os.path.join(OUT, 'replays'), exist_ok=True)
+            rp = os.path.join(OUT, 'replays', '%s-%s-%d.json' % (self.pid, self.tier, os.getpid()))
             keep, per = [], {}
             for v in self.violations:          # a few witnesses of every class
                 key = '%s|%s' % (v.get('cls') or v.get('clause') or v.get('kind'),
@@ -113,8 +114,8 @@ class Verdicts:
         ev = {'property_id': self.pid, 'tier': self.tier, 'seed': seed(), 'level': level,
               'coverage': coverage, 'assumptions': list(assumptions),
               'wall_s': round(time.time() - self.t0, 2), 'violations': len(self.violations)}
-        os.makedirs(os.path.join(VERIF, 'evidence'), exist_ok=True)
-        with open(os.path.join(VERIF, 'evidence', self.pid + '.json'), 'w') as fh:
+        os.makedirs(os.path.join(OUT, 'evidence'), exist_ok=True)
+        with open(os.path.join(OUT, 'evidence', self.pid + '.json'), 'w') as fh:
             json.dump(ev, fh, indent=1, default=repr)
         if self.violations:
             for v in self.violations[:5]:
